@@ -80,6 +80,9 @@ type Scen struct {
 	Files  []File    `json:"files"`
 	Args   []Arg     `json:"args"`
 	Note   string    `json:"note,omitempty"`
+	// StdinFile: stdin is a regular file opened for reading (shell redirection "< doc.json") rather
+	// than a pipe: read sizes, Stat().Size() and seekability differ
+	StdinFile bool `json:"stdin_is_file,omitempty"`
 	// NoFile: open-file limit of the child process (0: inherited) - a resource fault: a command
 	// that opens its patch files one at a time is unaffected by a low limit
 	NoFile int `json:"nofile_limit,omitempty"`
@@ -271,6 +274,18 @@ func Exec(s *Scen, binDir, dir string) (*Observed, error) {
 		return nil, err
 	}
 	cmd.Stdin = pr
+	var stdinFile *os.File
+	if s.StdinFile {
+		sp := filepath.Join(dir, ".stdin-document")
+		if err := os.WriteFile(sp, s.Stdin, 0o644); err != nil {
+			return nil, err
+		}
+		if stdinFile, err = os.Open(sp); err != nil {
+			return nil, err
+		}
+		defer stdinFile.Close()
+		cmd.Stdin = stdinFile
+	}
 	if err := cmd.Start(); err != nil {
 		pr.Close()
 		pw.Close()
@@ -303,6 +318,9 @@ func Exec(s *Scen, binDir, dir string) (*Observed, error) {
 			}
 		}
 		data := s.Stdin
+		if s.StdinFile {
+			return
+		}
 		for _, n := range s.Chunks {
 			if n <= 0 || len(data) == 0 {
 				break
@@ -528,6 +546,11 @@ func Enumerate() []*Scen {
 			out = append(out, &Scen{Target: target, Stdin: sim.Bytes(in), Chunks: chunks, Note: "enumeration: stdin in several writes", Files: []File{{Name: "p.json", State: StFile, Content: sim.Bytes(chainPatch(0)), Note: "valid"}}, Args: []Arg{{File: 0}}})
 			out = append(out, &Scen{Target: target, Stdin: sim.Bytes(in), Chunks: chunks, Note: "enumeration: stdin in several writes, no patches"})
 		}
+		// stdin redirected from a regular file (with patches, without, empty, larger than one pipe buffer)
+		for _, in := range []string{chainDoc, chainDoc + "\n", "", "{", strings.Repeat(" ", 70000) + chainDoc} {
+			out = append(out, &Scen{Target: target, Stdin: sim.Bytes(in), StdinFile: true, Note: "enumeration: stdin is a regular file", Files: []File{{Name: "p.json", State: StFile, Content: sim.Bytes(chainPatch(0)), Note: "valid"}}, Args: []Arg{{File: 0}}})
+			out = append(out, &Scen{Target: target, Stdin: sim.Bytes(in), StdinFile: true, Note: "enumeration: stdin is a regular file, no patches"})
+		}
 		// file boundaries matter: the whole-document pointer of a later file refers to what the
 		// earlier files produced, and an intermediate result that cannot be serialised or read back
 		// (root replaced by null) fails there and then
@@ -698,6 +721,10 @@ func Gen(seed uint64) *Scen {
 	}
 	if n >= 6 && r.P(300) {
 		s.NoFile = 16 + r.Intn(8)
+	}
+	if r.P(150) {
+		s.StdinFile = true
+		s.Chunks = nil
 	}
 	for i := range s.Files {
 		a := Arg{File: i, Spelling: r.Intn(4)}
@@ -940,7 +967,7 @@ func RunWorker(p sim.Params) *sim.Summary {
 		sum.Enum["fault_and_order_enumeration"]++
 	}
 	if done {
-		sum.Exhaustive = []string{fmt.Sprintf("every fault kind (%d) x every position in -p lists of length 1..3 with all other patches valid, every permutation of three chained and of three overwriting patches, no/duplicate/symlinked arguments, 14 stdin variants (empty, other roots, torn, byte-order marks, trailing data), 255/256/257/512 patch arguments, a 1 MiB patch file at each of 3 positions, six two-file lists whose second file refers to the whole document or replaces a null root, 100 patch files under an open-file limit of 32, stdin delivered in 1/2/n writes, a named pipe and a relative symlink in a sub-directory as patch file at every position, 4 path styles x 4 flag spellings - for both binaries (%d executions)", numFaultKinds, len(enum))}
+		sum.Exhaustive = []string{fmt.Sprintf("every fault kind (%d) x every position in -p lists of length 1..3 with all other patches valid, every permutation of three chained and of three overwriting patches, no/duplicate/symlinked arguments, 14 stdin variants (empty, other roots, torn, byte-order marks, trailing data), 255/256/257/512 patch arguments, a 1 MiB patch file at each of 3 positions, stdin redirected from a regular file (5 documents, with and without patches), six two-file lists whose second file refers to the whole document or replaces a null root, 100 patch files under an open-file limit of 32, stdin delivered in 1/2/n writes, a named pipe and a relative symlink in a sub-directory as patch file at every position, 4 path styles x 4 flag spellings - for both binaries (%d executions)", numFaultKinds, len(enum))}
 	}
 	// 2. seeded random scenarios
 	for i := int64(0); i < p.MaxRuns && time.Now().Before(p.Deadline); i++ {
